@@ -53,6 +53,9 @@ CLAIMED["C19"]=("Bounded symbolic execution of the real evaluator over the share
 CLAIMED["C02"]=("Bounded symbolic execution of the real yyParse (generated LALR tables + grammar actions) with the operator tokens as solver choices: for all ordered pairs and triples of the 23 infix operators, all operand shapes, and 25 mixed templates (prefix, chains, calls, indexing, assignments, jump statements, if/else), z3 discharges on every feasible token sequence that the expression as written and the expression with the parentheses implied by the documented table print the same AST. Natively replayed paths go through the real regex lexer.",
         TRUST,
         "SMT-decided bounded symbolic execution of go/ssa (z3); token sequences enumerated by solver-decided choices")
+CLAIMED["C16"]=("Bounded symbolic execution of the real simplexer Scan / Peek / peekBuf / readBufIfNeed / readBuf / consumeBuffer with the buffer length, the unread input length, the token length and every read count as solver variables (buffer content abstracted): one Scan step from an arbitrary state satisfying the buffer invariant returns the whole token and preserves the invariant, for a full reader and for arbitrary short reads, for greedy and delimited token classes. An inductive step: file size is unbounded; token length up to 6000 bytes, at most 4 reads per scan (quick).",
+        TRUST+" Token types and the reader are contract stubs (evidence.assumptions).",
+        "SMT-decided bounded symbolic execution of go/ssa (z3, bit-vectors; string lengths as terms)")
 NA={
 }
 DEFAULT_NA="check under construction in this session (engine exists; harness not yet registered)"
